@@ -664,6 +664,47 @@ def skip_ids(src, tr, tokens, kwl):
     return out
 
 
+def hint_crash_shape(tree, name):
+    """a class assigns `name` by an assignment statement and a base class written as a plain name is a class of the
+    module that binds `name` by an import (rope's inheritance-based assignment hint then hands an ImportedModule /
+    ImportedName to code that expects an AssignedName)"""
+    classes = [n for n in ast.walk(tree) if isinstance(n, ast.ClassDef)]
+
+    def block_stmts(body):
+        for st in body:
+            yield st
+            if isinstance(st, (ast.FunctionDef, ast.AsyncFunctionDef, ast.ClassDef)):
+                continue
+            for f in ("body", "orelse", "finalbody"):
+                yield from block_stmts(getattr(st, f, []) or [])
+            for h in getattr(st, "handlers", []) or []:
+                yield from block_stmts(h.body)
+
+    def imports(cls):
+        out = set()
+        for st in block_stmts(cls.body):
+            if isinstance(st, ast.Import):
+                out |= {a.asname or a.name.split(".")[0] for a in st.names}
+            elif isinstance(st, ast.ImportFrom):
+                out |= {a.asname or a.name for a in st.names}
+        return out
+
+    def assigns(cls):
+        out = set()
+        for st in block_stmts(cls.body):
+            if isinstance(st, ast.Assign):
+                for t in st.targets:
+                    out |= {n.id for n in ast.walk(t) if isinstance(n, ast.Name)}
+        return out
+
+    for k in classes:
+        if name in assigns(k):
+            for b in k.bases:
+                if isinstance(b, ast.Name) and any(c.name == b.id and name in imports(c) for c in classes):
+                    return True
+    return False
+
+
 # ============================================================================ Gallina
 def g_path(p):
     return "[" + "; ".join("%d%%nat" % i for i in p) + "]"
@@ -728,6 +769,9 @@ def observe(src, with_rope=True, fresh=False, resolvable=()):
     if with_rope:
         o.rope, o.stray = observe_rope(src, o.tokens, fresh=fresh)
         # offsets rope may report that are NAME tokens but not identifiers of the program (keywords): stray
+        for t in o.tokens:
+            if o.rope[t.id] == "EXC:AttributeError" and hint_crash_shape(tr.tree, t.name):
+                o.skip[t.id] = "inherited-import-attribute-hint-crash"
     o.key, o.cat, o.info = oracle(src, tr, o.tokens, resolvable)
     # the scoping binding without import transparency (what the Coq SPEC computes): owner scope of the name
     o.varkey = scoping_keys(o)
